@@ -119,16 +119,16 @@ structure State where
   decls : List QDecl := []
   classes : List Cls := []
   insts : List Inst := []
-  deriving Repr, Inhabited
+  deriving DecidableEq, Repr, Inhabited
 
 /-- type tags fixed by the harness table (`harness/c12.py: TYPES`) -/
 def tyString : Nat := 1
 def tyReference : Nat := 3
 
-def nAssociation : Name := "association".toList
-def nIndication : Name := "indication".toList
-def nOverride : Name := "override".toList
-def nEmbeddedInstance : Name := "embeddedinstance".toList
+def nAssociation : Name := ['a', 's', 's', 'o', 'c', 'i', 'a', 't', 'i', 'o', 'n']
+def nIndication : Name := ['i', 'n', 'd', 'i', 'c', 'a', 't', 'i', 'o', 'n']
+def nOverride : Name := ['o', 'v', 'e', 'r', 'r', 'i', 'd', 'e']
+def nEmbeddedInstance : Name := ['e', 'm', 'b', 'e', 'd', 'd', 'e', 'd', 'i', 'n', 's', 't', 'a', 'n', 'c', 'e']
 
 def errParam : PyExc := .cimError CIM_ERR_INVALID_PARAMETER
 
@@ -252,15 +252,18 @@ def copyQuals (qs : List Qual) : List Qual :=
 def copyElem (e : Elem) : Elem :=
   { e with propagated := some true, quals := copyQuals e.quals }
 
-/-- the value of the Override qualifier as a dictionary key -/
-def overrideKey (qs : List Qual) : Except PyExc Name :=
+/-- `new_objects[obj_name].qualifiers["override"].value` -/
+def overrideVal (qs : List Qual) : Val :=
   match findQual qs nOverride with
-  | none => .error .keyError
-  | some q =>
-    match q.val with
-    | .str s => .ok s
-    | .null => .error .valueError          -- NocaseDict refuses the key None
-    | .tok _ => .error .attributeError     -- non-string key has no casefold()
+  | none => .null
+  | some q => q.val
+
+/-- a qualifier value used as a NocaseDict key -/
+def keyOfVal (v : Val) : Except PyExc Name :=
+  match v with
+  | .str s => .ok s
+  | .null => .error .valueError          -- NocaseDict refuses the key None
+  | .tok _ => .error .attributeError     -- non-string key has no casefold()
 
 /-- mirrors pywbem_mock/_resolvermixin.py: ResolverMixin._resolve_objects (type_str = "Parameter").
     CIMParameter has `__slots__` without `propagated`/`class_origin`, so every path that reaches
@@ -271,11 +274,11 @@ def resolveParam (supP : List Param) (p : Param) : Except PyExc Param :=
   if !(hasParam supP p.name) then .error .attributeError
   else if !(hasQual p.quals nOverride) then .ok p
   else
-    match overrideKey p.quals with
+    if p.ty == tyReference && overrideVal p.quals != .str p.name then .error errParam
+    else
+    match keyOfVal (overrideVal p.quals) with
     | .error e => .error e
     | .ok oname =>
-      if p.ty == tyReference && oname != p.name then .error errParam
-      else
         match findParam supP oname with
         | none => .error errParam
         | some sp =>
@@ -313,11 +316,11 @@ def resolveElem (decls : List QDecl) (clsName : Name) (supE : List Elem) (e : El
   if !(hasElem supE e.name) then setNewElem decls clsName e none
   else if !(hasQual e.quals nOverride) then .error errParam
   else
-    match overrideKey e.quals with
+    if !e.isMeth && e.ty == tyReference && overrideVal e.quals != .str e.name then .error errParam
+    else
+    match keyOfVal (overrideVal e.quals) with
     | .error err => .error err
     | .ok oname =>
-      if !e.isMeth && e.ty == tyReference && oname != e.name then .error errParam
-      else
         match findElem supE oname with
         | none => .error errParam
         | some s =>
@@ -410,43 +413,64 @@ def validateElemQuals (decls : List QDecl) (e : Elem) : Except PyExc Unit :=
     | .ok _ => allE (fun p => validateQuals decls .param p.quals) e.params
   else validateQuals decls (if e.ty == tyReference then .ref else .prop) e.quals
 
-/-- mirrors pywbem_mock/_resolvermixin.py: ResolverMixin._resolve_class -/
-def resolveClass (decls : List QDecl) (cs : List Cls) (c : Cls) : Except PyExc Cls :=
-  let isAssoc := hasQual c.quals nAssociation
-  let supR : Except PyExc (Option Cls) :=
-    match c.super with
-    | none => .ok none
-    | some s =>
-      if s.isEmpty then .ok none
-      else match findClass cs s with
-        | none => .error (.cimError CIM_ERR_INVALID_SUPERCLASS)
-        | some sc => .ok (some sc)
-  match supR with
-  | .error e => .error e
-  | .ok sup =>
-    if isAssoc && (match sup with | some sc => !(hasQual sc.quals nAssociation) | none => false) then
-      .error errParam
-    else if !isAssoc && c.props.any (fun p => p.ty == tyReference) then .error errParam
-    else
-      match validateQuals decls (classScope c.quals) c.quals with
-      | .error e => .error e
-      | .ok _ =>
+/-- `if new_class.superclass:` -/
+def superSet (o : Option Name) : Bool :=
+  match o with
+  | some s => !s.isEmpty
+  | none => false
+
+/-- an empty superclass name is stored as "no superclass" -/
+def normSuper (o : Option Name) : Option Name := if superSet o then o else none
+
+/-- `_resolve_class`: the superclass lookup (`get_class(... local_only=False ...)`, NOT_FOUND mapped to
+    INVALID_SUPERCLASS) -/
+def findSuper (cs : List Cls) (c : Cls) : Except PyExc (Option Cls) :=
+  match c.super with
+  | none => .ok none
+  | some s =>
+    if s.isEmpty then .ok none
+    else match findClass cs s with
+      | none => .error (.cimError CIM_ERR_INVALID_SUPERCLASS)
+      | some sc => .ok (some sc)
+
+def superNotAssoc (sup : Option Cls) : Bool :=
+  match sup with
+  | some sc => !(hasQual sc.quals nAssociation)
+  | none => false
+
+/-- `_resolve_class`: the validation steps before anything is resolved -/
+def validateClass (decls : List QDecl) (c : Cls) (sup : Option Cls) : Except PyExc Unit :=
+  if hasQual c.quals nAssociation && superNotAssoc sup then .error errParam
+  else if !(hasQual c.quals nAssociation) && c.props.any (fun p => p.ty == tyReference) then .error errParam
+  else
+    match validateQuals decls (classScope c.quals) c.quals with
+    | .error e => .error e
+    | .ok _ =>
       match allE (validateElemQuals decls) c.props with
       | .error e => .error e
-      | .ok _ =>
-      match allE (validateElemQuals decls) c.meths with
-      | .error e => .error e
-      | .ok _ =>
-      -- class level qualifiers: resolved with propagate=False (open known finding: never inherited)
-      match resolveQuals decls c.quals [] false with
-      | .error e => .error e
-      | .ok cq =>
-      match resolveElems decls c.name c.props (sup.map (·.props)) with
-      | .error e => .error e
-      | .ok ps =>
+      | .ok _ => allE (validateElemQuals decls) c.meths
+
+/-- `_resolve_class`: the resolution proper.  Class level qualifiers are resolved with
+    propagate=False (open known finding: never inherited). -/
+def resolveParts (decls : List QDecl) (c : Cls) (sup : Option Cls) : Except PyExc Cls :=
+  match resolveQuals decls c.quals [] false with
+  | .error e => .error e
+  | .ok cq =>
+    match resolveElems decls c.name c.props (sup.map (·.props)) with
+    | .error e => .error e
+    | .ok ps =>
       match resolveElems decls c.name c.meths (sup.map (·.meths)) with
       | .error e => .error e
-      | .ok ms => .ok { c with quals := cq, props := ps, meths := ms }
+      | .ok ms => .ok { c with super := normSuper c.super, quals := cq, props := ps, meths := ms }
+
+/-- mirrors pywbem_mock/_resolvermixin.py: ResolverMixin._resolve_class -/
+def resolveClass (decls : List QDecl) (cs : List Cls) (c : Cls) : Except PyExc Cls :=
+  match findSuper cs c with
+  | .error e => .error e
+  | .ok sup =>
+    match validateClass decls c sup with
+    | .error e => .error e
+    | .ok _ => resolveParts decls c sup
 
 /-- one dependency test of `_validate_dependencies_exist` (type, reference class, qualifiers) -/
 def depCheck (cs : List Cls) (clsName : Name) (ty : Nat) (refcls : Option Name) (quals : List Qual) :
@@ -569,19 +593,13 @@ def createClass (s : State) (c : Cls) : Except PyExc State :=
 
 /-- mirrors pywbem_mock/_wbemconnection_mock.py: FakedWBEMConnection.add_cimobjects (CIMClass branch) -/
 def addClass (s : State) (c : Cls) : Except PyExc State :=
-  if (match c.super with | some sn => !sn.isEmpty && !(hasClass s.classes sn) | none => false) then
-    .error .valueError
+  if superSet c.super && !(hasClass s.classes (c.super.getD [])) then .error .valueError
   else
     match resolveClass s.decls s.classes c with
     | .error e => .error e
     | .ok r =>
       if hasClass s.classes c.name then .error .valueError
       else .ok { s with classes := s.classes ++ [r] }
-
-def superSet (o : Option Name) : Bool :=
-  match o with
-  | some s => !s.isEmpty
-  | none => false
 
 /-- `class_store.update`: same dictionary slot, new key spelling, new value -/
 def replaceClass (cs : List Cls) (r : Cls) : List Cls :=
@@ -596,7 +614,7 @@ def modifyClass (s : State) (c : Cls) : Except PyExc State :=
     else if s.insts.any (fun i => ieq i.cls c.name) then .error (.cimError CIM_ERR_CLASS_HAS_INSTANCES)
     else if superSet c.super && !(hasClass s.classes (c.super.getD [])) then
       .error (.cimError CIM_ERR_INVALID_SUPERCLASS)
-    else if (c.super.isNone && superSet orig.super) || (superSet c.super && orig.super.isNone) then
+    else if (!(superSet c.super) && superSet orig.super) || (superSet c.super && !(superSet orig.super)) then
       .error (.cimError CIM_ERR_INVALID_SUPERCLASS)
     else if superSet c.super && superSet orig.super && !(ieq (orig.super.getD []) (c.super.getD [])) then
       .error (.cimError CIM_ERR_INVALID_SUPERCLASS)
@@ -669,12 +687,15 @@ def run (s : State) : List Op → State × List Out
 
 namespace Spec
 
+/-- `c` is stored as a direct subclass of (a class named like) `a` -/
+def IsChild (c : Cls) (a : Name) : Prop := ∃ s, c.super = some s ∧ s ≠ [] ∧ ieq s a = true
+
 /-- `d` is a (direct or indirect) subclass of `a` in the store: the relation the enumerations and
-    DeleteClass must realise.  Names as stored; comparisons case-insensitive. -/
+    DeleteClass must realise.  First argument: a class name as stored; comparisons with superclass
+    names are case-insensitive. -/
 inductive Desc (cs : List Cls) : Name → Name → Prop where
-  | child {c : Cls} {s a : Name} : c ∈ cs → c.super = some s → s ≠ [] → ieq s a = true → Desc cs c.name a
-  | trans {c : Cls} {s m a : Name} : Desc cs m a → c ∈ cs → c.super = some s → s ≠ [] → ieq s m = true →
-      Desc cs c.name a
+  | child {c : Cls} {a : Name} : c ∈ cs → IsChild c a → Desc cs c.name a
+  | trans {c : Cls} {m a : Name} : Desc cs m a → c ∈ cs → IsChild c m → Desc cs c.name a
 
 /-- names exposed by a class with own elements `own` whose superclass exposes `inherited`:
     own ∪ (inherited \ redeclared) -/
